@@ -159,6 +159,12 @@ def run(ctx):
     thorough = ctx.tier == 'thorough'
     cfg = 'MC_Network_t.cfg' if thorough else 'MC_Network_q.cfg'
     r1 = ctx.tlc('MC_Network', cfg, workers=16, timeout=6000)
+    if thorough:
+        # other small worlds (species x rules x products per step); one with four species and two
+        # products per step does not finish (> 85 million states in 20 minutes)
+        for extra in ('MC_Network_q.cfg', 'MC_Network_t2.cfg', 'MC_Network_t3.cfg', 'MC_Network_t4.cfg'):
+            rx = ctx.tlc('MC_Network', extra, workers=16, timeout=6000)
+            ctx.log('MC_Network %s: %d states' % (extra, rx.distinct))
     ctx.log('MC_Network: %d states, %d transitions; Within, Complete, NoDupInv, Terminates hold'
             % (r1.distinct, r1.generated))
     r2 = ctx.tlc('MC_Network', 'MC_Network_dev.cfg', workers=1, expect_violation=True, count=False)
